@@ -195,6 +195,10 @@ class Units:
             if n["name"] == "len_utf8":
                 return "W"
             if n["name"] in ("min", "max") and len(n["args"]) == 1:
+                if n["name"] == "min":
+                    for a_, x_ in ((n["recv"], n["args"][0]), (n["args"][0], n["recv"])):
+                        if self._clamp_bb(a_, x_):
+                            return BB
                 a, b = self.unit(n["recv"]), self.unit(n["args"][0])
                 return join(a, b) if {a, b} <= {BB, ZERO} or a == b else join(a, b)
             if n["name"] in ("unwrap", "expect", "unwrap_or", "clone"):
@@ -365,8 +369,9 @@ class Units:
                     self.bind_pat(n["pat"], self.unit(n["init"]))
                     if n["pat"]["p"] == "bind":
                         i_ = T.peel_ref(n["init"])
-                        if i_.get("k") == "call" and (T.cname(i_) or "").endswith("cmp::min") and len(i_["args"]) == 2:
-                            for a_, x_ in ((i_["args"][0], i_["args"][1]), (i_["args"][1], i_["args"][0])):
+                        ma = T.min_args(i_)
+                        if ma is not None:
+                            for a_, x_ in ((ma[0], ma[1]), (ma[1], ma[0])):
                                 if self._clamp_bb(a_, x_):
                                     self.env[("clamp", n["pat"]["id"])] = T.local_of(x_)
                         if self._is_scanner_result(n["init"]):
